@@ -16,6 +16,26 @@ theorem readAt_take_short (f : Bytes) {k p n : Nat} (h : k < p + n) (hn : 0 < n)
     (readAt (f.take k) p n).length ≠ n :=
   readAt_short (by simp only [List.length_take]; omega) hn
 
+/-- `_read_chunk_header` on eight available bytes `id ++ s4` with a syntactically valid id. -/
+theorem readChunkHeader_hdr {f pre id s4 rest : Bytes} (ds : Option Ds64) (hf : f = pre ++ (id ++ (s4 ++ rest)))
+    (hid : id.length = 4) (hs : s4.length = 4) (hv : validId id = true) :
+    readChunkHeader f ds pre.length = .hdr id (hdrSize ds id (fromLE s4)) := by
+  have hd : readAt f pre.length 8 = id ++ s4 :=
+    readAt_mid (a := pre) (b := id ++ s4) (r := rest) (by simp [hf]) rfl (by simp [hid, hs])
+  have h4 : (id ++ s4).take 4 = id := by rw [← hid]; simp
+  have h5 : (id ++ s4).drop 4 = s4 := by rw [← hid]; simp
+  simp only [readChunkHeader, hd, h4, h5, hv]
+  simp [hid, hs]
+
+/-- one iteration of `_read_chunks` on a chunk that ends after the end of the file -/
+theorem readChunks_chunkEnd {f : Bytes} {ds : Option Ds64} {fuel pos : Nat} {t : Table} {w : List Warn}
+    {id : Bytes} {sz : Nat} (hh : readChunkHeader f ds pos = .hdr id sz)
+    (h1 : pos + 8 + (sz + sz % 2) > f.length)
+    (h2 : ¬ (sz % 2 = 1 ∧ id = idData ∧ pos + 8 + (sz + sz % 2) = f.length + 1)) :
+    readChunks f ds (fuel + 1) pos t w = .error .chunkEnd := by
+  rw [readChunks, hh]
+  simp only [h1, h2, ↓reduceIte]
+
 /-! ### prefixes of a chunk sequence -/
 
 /-- A proper prefix of an encoded chunk sequence consists of some complete chunks followed by a proper
@@ -73,16 +93,10 @@ theorem walk_prefix (ds : Option Ds64) (A : List Chunk) (c : Chunk) (hA : ∀ x 
       simp only [Chunk.enc, List.take_append, hc.idLen, le_length]
       rw [List.take_of_length_le (by rw [hc.idLen]; omega), List.take_of_length_le (by rw [le_length]; omega)]
       congr 2
-      congr 1; omega
     have hh := readChunkHeader_hdr (f := f) (pre := pre ++ encAll A) (id := c.id) (s4 := le 4 c.szField)
       (rest := (c.body ++ c.padB).take (j - 8)) ds (by rw [hf, htake]; simp) hc.idLen (le_length 4 _) hc.idValid
-    have hsz : (match ds with
-        | none => fromLE (le 4 c.szField)
-        | some d => if c.id = idData then d.dataSize else (d.lookup c.id).getD (fromLE (le 4 c.szField))) =
-        c.body.length := by
-      have := hc.size
-      rw [fromLE_le4 _ hc.szLt]
-      cases ds <;> simpa [effSize] using this
+    have hsz : hdrSize ds c.id (fromLE (le 4 c.szField)) = c.body.length := by
+      rw [fromLE_le4 _ hc.szLt]; exact hc.size
     rw [hsz, List.length_append] at hh
     rw [show k + 2 = (k + 1) + 1 from rfl, readChunks, hh]
     have he : pre.length + (encAll A).length + 8 + (c.body.length + c.body.length % 2) > f.length := by omega
@@ -91,12 +105,102 @@ theorem walk_prefix (ds : Option Ds64) (A : List Chunk) (c : Chunk) (hA : ∀ x 
     · have hp' : c.body.length % 2 = 1 ∧ c.id = idData ∧
           pre.length + (encAll A).length + 8 + (c.body.length + c.body.length % 2) = f.length + 1 := by
         refine ⟨hp.1, hp.2.1, ?_⟩; omega
-      simp only [hp, hp', and_self, ↓reduceIte]
-      rw [readChunks_eof (by omega)]
+      rw [if_pos hp', if_pos hp, readChunks_eof (by omega)]
       simp
     · have hp' : ¬ (c.body.length % 2 = 1 ∧ c.id = idData ∧
           pre.length + (encAll A).length + 8 + (c.body.length + c.body.length % 2) = f.length + 1) := by
         intro h; apply hp; refine ⟨h.1, h.2.1, ?_⟩; omega
-      simp only [hp, hp', ↓reduceIte]
+      rw [if_neg hp', if_neg hp]
+
+/-! ### prefixes of the writer's chunk sequence -/
+
+theorem walkTable_snoc (A : List Chunk) (x : Chunk) : ∀ (p : Nat) (t : Table),
+    walkTable p (A ++ [x]) t = (x.id, x.body.length, p + (encAll A).length) :: walkTable p A t := by
+  induction A with
+  | nil => intro p t; simp [walkTable]
+  | cons a A ih =>
+    intro p t
+    simp only [List.cons_append, walkTable, ih, encAll_cons, List.length_append]
+    congr 3; omega
+
+/-- splitting one list two ways around single elements -/
+theorem split_cases {α : Type} {A B H T : List α} {c d : α} (h : A ++ c :: B = H ++ d :: T) :
+    (∃ X, H = A ++ c :: X) ∨ (A = H ∧ c = d ∧ B = T) ∨ (∃ L, A = H ++ d :: L ∧ T = L ++ c :: B) := by
+  rcases List.append_eq_append_iff.1 h with ⟨a', h1, h2⟩ | ⟨c', h1, h2⟩
+  · -- H = A ++ a', c :: B = a' ++ d :: T
+    cases a' with
+    | nil =>
+      simp at h1 h2
+      exact Or.inr (Or.inl ⟨h1.symm, h2.1, h2.2⟩)
+    | cons x a' =>
+      simp at h2
+      exact Or.inl ⟨a', by rw [h1, h2.1]⟩
+  · -- A = H ++ c', d :: T = c' ++ c :: B
+    cases c' with
+    | nil =>
+      simp at h1 h2
+      exact Or.inr (Or.inl ⟨h1, h2.1.symm, h2.2.symm⟩)
+    | cons x c' =>
+      simp at h2
+      exact Or.inr (Or.inr ⟨c', by rw [h1, h2.1], h2.2⟩)
+
+/-- a prefix of a concatenation whose first part has at most one element -/
+theorem prefix_short {α : Type} {L M X W : List α} (hX : X.length ≤ 1) (h : L ++ M = X ++ W) :
+    L = [] ∨ ∃ L', L = X ++ L' ∧ L' ++ M = W := by
+  cases X with
+  | nil => exact Or.inr ⟨L, rfl, by simpa using h⟩
+  | cons x X =>
+    have : X = [] := by cases X with
+      | nil => rfl
+      | cons _ _ => simp at hX
+    subst this
+    cases L with
+    | nil => exact Or.inl rfl
+    | cons l L =>
+      simp at h
+      exact Or.inr ⟨L, by rw [h.1]; rfl, h.2⟩
+
+theorem optChnaC_length (c : Option (List ChnaEntry)) : (optChnaC c).length ≤ 1 := by cases c <;> simp [optChnaC]
+theorem optMetaC_length (id : Bytes) (v : Option Bytes) : (optMetaC id v).length ≤ 1 := by
+  rcases v with _ | _ | ⟨x, xs⟩ <;> simp [optMetaC]
+
+/-- A prefix of the late chunks is the late chunks of a history in which some of the pending values are
+`None` instead. -/
+theorem prefix_lateC {cw aw bw : Bool} {c : Option (List ChnaEntry)} {a b : Option Bytes} {L M : List Chunk}
+    (h : L ++ M = lateC cw aw bw c a b) :
+    ∃ c' a' b', (c' = c ∨ c' = none) ∧ (a' = a ∨ a' = none) ∧ (b' = b ∨ b' = none) ∧
+      L = lateC cw aw bw c' a' b' := by
+  have nilC : (if cw then [] else optChnaC none) = ([] : List Chunk) := by cases cw <;> rfl
+  have nilA : (if aw then [] else optMetaC idAxml none) = ([] : List Chunk) := by cases aw <;> rfl
+  have nilB : (if bw then [] else optMetaC idBext none) = ([] : List Chunk) := by cases bw <;> rfl
+  unfold lateC at h
+  rcases prefix_short (by cases cw <;> simp [optChnaC_length]) h with rfl | ⟨L1, rfl, h1⟩
+  · exact ⟨none, none, none, Or.inr rfl, Or.inr rfl, Or.inr rfl, by simp [lateC, nilC, nilA, nilB]⟩
+  · rcases prefix_short (by cases aw <;> simp [optMetaC_length]) h1 with rfl | ⟨L2, rfl, h2⟩
+    · exact ⟨c, none, none, Or.inl rfl, Or.inr rfl, Or.inr rfl, by simp [lateC, nilA, nilB]⟩
+    · have h2' : L2 ++ M = (if bw then [] else optMetaC idBext b) ++ [] := by simpa using h2
+      rcases prefix_short (by cases bw <;> simp [optMetaC_length]) h2' with rfl | ⟨L3, rfl, h3⟩
+      · exact ⟨c, a, none, Or.inl rfl, Or.inl rfl, Or.inr rfl, by simp [lateC, nilB]⟩
+      · have : L3 = [] := (List.append_eq_nil_iff.1 h3).1
+        subst this
+        exact ⟨c, a, b, Or.inl rfl, Or.inl rfl, Or.inl rfl, by simp [lateC]⟩
+
+theorem effChna_sub (c0 c c' : Option (List ChnaEntry)) (h : c' = c ∨ c' = none) :
+    effChna c0 c' = none ∨ effChna c0 c' = effChna c0 c := by
+  rcases h with rfl | rfl
+  · exact Or.inr rfl
+  · cases c0 <;> simp [effChna]
+
+theorem effMeta_sub (v0 v v' : Option Bytes) (h : v' = v ∨ v' = none) :
+    effMeta v0 v' = none ∨ effMeta v0 v' = effMeta v0 v := by
+  rcases h with rfl | rfl
+  · exact Or.inr rfl
+  · have hn : truthy (none : Option Bytes) = false := rfl
+    by_cases h0 : truthy v0 = true <;> simp [effMeta, h0, hn]
+
+theorem finishRead_noData {f ff : Bytes} {ds : Option Ds64} {t : Table} {w : List Warn}
+    (h : tlookup t idData = none) : finishRead f ff ds t w = .error .missingChunk := by
+  unfold finishRead
+  cases tlookup t idFmt <;> simp [h]
 
 end Earverif.Bw64
